@@ -11,7 +11,7 @@ from . import common as c
 SUPPORT = ["Ast/Tree.v", "Ast/Search.v", "Ast/SearchProofs.v", "Ast/Linked.v", "Ast/Node.v"]
 
 CLAIM = {
-    "gens": [],
+    "gens": ["AstConsts"],
     "category": "proof",
     "text": "Coq: token-level model of the native path search (get_by_path.c: advance_ns, match_key comparing the raw member name "
             "with the key escape by escape, skip_one_fast's own-kind bracket counter over skipped siblings, validating skip when "
@@ -164,7 +164,7 @@ def shrink_doc(runner, fields, kind):
 
 def run(ctx):
     ctx.level = "proof"
-    ctx.trusted = c.TRUSTED_COMMON + [c.TRUSTED_EXTRACT,
+    ctx.trusted = c.TRUSTED_COMMON + [c.TRUSTED_EXTRACT, c.TRUSTED_TX,
                                      "the Go harness' tokenizer (cuts the document into tokens with raw string bodies for the model) and "
                                      "encoding/json's Decoder as the oracle of paths, values and the event stream",
                                      "the read-only hook /repo/ast/verif_hooks.go"]
